@@ -26,6 +26,8 @@ Items == {
   \* parameters whose names extend the name of the whole-array parameter {w} (and of {u})
   Stmt("Gw", TRUE, <<Par("w2")>>, <<Kw("k", Bin("*", Par("wscale"), I(2)))>>, <<I(1)>>, "none"),
   [t |-> "var", ty |-> "float", x |-> "sw", e |-> Bin("*", F(1, 2), Par("w2"))],
+  \* free parameters whose names merely begin like the reserved p<digits> names
+  Stmt("Gp", TRUE, <<Par("p1a")>>, <<Kw("k", Bin("+", Par("p0_bs"), I(1)))>>, <<I(2)>>, "none"),
   Stmt("Gs", TRUE, <<Var("sw")>>, <<>>, <<I(0)>>, "none"),
   [t |-> "var", ty |-> "float", x |-> "v", e |-> Par("a")],
   [t |-> "var", ty |-> "float", x |-> "w", e |-> Bin("+", Bin("*", I(2), Par("b")), I(1))],
@@ -44,10 +46,10 @@ Items == {
 }
 \* two assignments of exact values to every name that can occur (whole-array parameters per element)
 Q2(n, d) == Num("float", QNorm(n, d), QZero)
-Env1 == << [n |-> "a", v |-> Q2(3, 4)], [n |-> "b", v |-> Q2(-3, 2)], [n |-> "c", v |-> Q2(5, 8)], [n |-> "d", v |-> IntV(2)], [n |-> "e", v |-> Q2(1, 4)], [n |-> "w2", v |-> Q2(7, 10)], [n |-> "wscale", v |-> IntV(3)],
+Env1 == << [n |-> "a", v |-> Q2(3, 4)], [n |-> "b", v |-> Q2(-3, 2)], [n |-> "c", v |-> Q2(5, 8)], [n |-> "d", v |-> IntV(2)], [n |-> "e", v |-> Q2(1, 4)], [n |-> "w2", v |-> Q2(7, 10)], [n |-> "wscale", v |-> IntV(3)], [n |-> "p1a", v |-> Q2(9, 8)], [n |-> "p0_bs", v |-> Q2(-3, 8)],
            [n |-> "w_0_0", v |-> Q2(1, 2)], [n |-> "w_0_1", v |-> Q2(3, 2)], [n |-> "w_1_0", v |-> Q2(5, 2)], [n |-> "w_1_1", v |-> Q2(-1, 1)],
            [n |-> "u_0_0", v |-> IntV(1)], [n |-> "u_0_1", v |-> Q2(7, 4)] >>
-Env2 == << [n |-> "a", v |-> IntV(2)], [n |-> "b", v |-> Q2(1, 4)], [n |-> "c", v |-> Q2(-9, 4)], [n |-> "d", v |-> Q2(11, 2)], [n |-> "e", v |-> IntV(-3)], [n |-> "w2", v |-> Q2(-1, 2)], [n |-> "wscale", v |-> Q2(5, 4)],
+Env2 == << [n |-> "a", v |-> IntV(2)], [n |-> "b", v |-> Q2(1, 4)], [n |-> "c", v |-> Q2(-9, 4)], [n |-> "d", v |-> Q2(11, 2)], [n |-> "e", v |-> IntV(-3)], [n |-> "w2", v |-> Q2(-1, 2)], [n |-> "wscale", v |-> Q2(5, 4)], [n |-> "p1a", v |-> IntV(6)], [n |-> "p0_bs", v |-> Q2(13, 4)],
            [n |-> "w_0_0", v |-> Q2(-1, 4)], [n |-> "w_0_1", v |-> IntV(0)], [n |-> "w_1_0", v |-> Q2(9, 2)], [n |-> "w_1_1", v |-> Q2(1, 8)],
            [n |-> "u_0_0", v |-> Q2(-5, 2)], [n |-> "u_0_1", v |-> IntV(4)] >>
 Envs == {Env1, Env2}
